@@ -101,3 +101,32 @@ Definition nupSlots (IW nupN : Z) (sorted : list Z) : list Z :=
 Definition nupOutputPages (nupN : Z) (sorted : list Z) : Z :=
   let pageCount := padTo (slice_len sorted) nupN in
   1 + Z.of_nat (length (filter (fun i => (0 <? i) && (Z.rem i nupN =? 0)) (zrange pageCount))).
+
+(* ---- the selected-page set: types.IntSet = map[int]bool.  api.PagesForPageSelection stores a
+   deselected page n as pages[n] = false (not by deleting the key), so the map is modelled as an
+   association list (key, value) with distinct keys, in arbitrary (map iteration) order.
+   nup.go sortSelectedPages: collect the keys whose value is true, sort.Ints ascending
+   (sort.Ints is modelled by insertion sort). *)
+Fixpoint insertZ (x : Z) (l : list Z) : list Z :=
+  match l with
+  | [] => [x]
+  | y :: t => if x <=? y then x :: l else y :: insertZ x t
+  end.
+
+Fixpoint isortZ (l : list Z) : list Z :=
+  match l with
+  | [] => []
+  | x :: t => insertZ x (isortZ t)
+  end.
+
+Definition sortSelectedPages (pages : list (Z * bool)) : list Z :=
+  isortZ (map fst (filter snd pages)).
+
+(* getBookletOrdering(pages types.IntSet, nup) as called by bookletPages / BookletFromImages *)
+Definition getBookletOrderingOfMap (IW nupN btype binding : Z) (landscape topfold multifolio : bool) (folio : Z)
+    (pages : list (Z * bool)) : res (list (Z * bool)) :=
+  getBookletOrdering IW nupN btype binding landscape topfold multifolio folio (sortSelectedPages pages).
+
+(* impositionPages(…, selectedPages types.IntSet, …) *)
+Definition nupSlotsOfMap (IW nupN : Z) (pages : list (Z * bool)) : list Z := nupSlots IW nupN (sortSelectedPages pages).
+Definition nupOutputPagesOfMap (nupN : Z) (pages : list (Z * bool)) : Z := nupOutputPages nupN (sortSelectedPages pages).
